@@ -26,7 +26,7 @@ def holds (s : St) (t : Nat) : Lock → Prop
 /-- the lock that label `a` of thread `t` acquires in state `s` -/
 def wants (s : St) (t : Nat) : Act → Option Lock
   | .meterNew | .meterGet => some .prov
-  | .mk m _ | .reg m => some (.meter m)
+  | .mk m _ | .reg m | .regBad m => some (.meter m)
   | .unregTake r | .oUnregLock r => some (.reg r)
   | .unregCall => match s.frame t with
     | .unregTaken r .closure => some (.meter (s.rMeter r))
@@ -278,16 +278,17 @@ had been unregistered") -/
 theorem callback_never_registered_twice {s : St} (hr : Reachable false s) (r : Nat) : s.sdkReg r ≤ 1 :=
   (regInv_reachable hr).once r
 
-/-- exactly once after the installation unless Unregister was called: registered once, not unregistered -/
+/-- exactly once after the installation unless Unregister was called (or the SDK rejected the registration — `rBad`,
+see `rejected_callback_does_not_stop_the_others` in PropsCb.lean): registered once, not unregistered -/
 theorem callback_registered_once {s : St} (hr : Reachable false s) (hd : s.onceDone = true) {r : Nat}
-    (hlt : r < s.nR) (hu : s.unregCalled r = false) : s.sdkReg r = 1 ∧ s.sdkUnreg r = 0 := by
+    (hlt : r < s.nR) (hu : s.unregCalled r = false) (hb : s.rBad r = false) : s.sdkReg r = 1 ∧ s.sdkUnreg r = 0 := by
   have R := regInv_reachable hr
   have D := delInv_reachable hr
   have hnn : s.rUnreg r ≠ .none := by
     intro h; have := (R.called r hlt).mp h; simp [hu] at this
   have hnc : s.rUnreg r ≠ .closure := by
     intro h
-    have hin := R.closureIn r h
+    have hin := R.closureIn r h hb
     have hm := D.onceAll hd _ (R.regMeter r hlt)
     rw [(D.doneEmpty _ hm).2] at hin
     simp at hin
